@@ -1131,7 +1131,7 @@ def worker(ctx):
             labels.append("Q:same_named_vars")
         ctx.case(["q", structs, items], differ, labels=labels)
         if later_permissive and sum(1 for k in ctx.samples if str(k).startswith("Q")) < 3:
-            ctx.sample("Q:" + ann(items[0], True), {"printed": ann(items[0], True), "items": [ann(t) for t in items],
+            ctx.sample("Q:" + M_print(items[0], structs), {"printed": M_print(items[0], structs), "items": [ann(t) for t in items],
                                                     "oracle": [cls_name(oracle(t, S)) for t in items]})
         try:
             r = judge_seq(structs, items)
@@ -1207,7 +1207,7 @@ SPEC = harness.Spec(
     ],
     shards={"quick": 16, "thorough": 16},
     budget_s={"quick": 150, "thorough": 900},
-    params={"quick": {"sets": 3, "n_types": 3000, "n_seqs": 250, "n_progs": 32},
+    params={"quick": {"sets": 3, "n_types": 3000, "n_seqs": 200, "n_progs": 32},
             "thorough": {"sets": 10, "n_types": 60000, "n_seqs": 3000, "n_progs": 500}},
     min_nontrivial=1500,
 )
